@@ -11,8 +11,16 @@ def P(ref, stage=0):
     return FlowIR.ParseDataReferenceFull(ref, stage)
 
 
+def _tok(c: str) -> bool:
+    """A character of the alphabet that the loader itself accepts in a reference token (FlowIR.discover_reference_strings:
+    [.a-zA-Z0-9_/-], minus the separators '.' and '/'): a producer whose name holds any other character cannot be referenced in
+    an argument string at all (the workflow is rejected at load: "Unknown reference to A:ref" for a producer called !A)."""
+    o = ord(c)
+    return 48 <= o <= 57 or 65 <= o <= 90 or 97 <= o <= 122 or o == 45 or o == 95
+
+
 def name_ok(s: str) -> bool:
-    return 1 <= len(s) and all('!' <= c <= '~' for c in s) and not any(c in s for c in ':/%.=,') \
+    return 1 <= len(s) and all(_tok(c) for c in s) \
         and not s.startswith('stage') and s not in ('input', 'data', 'bin', 'conf') and not s[-1:].isdigit()
 
 
@@ -41,7 +49,7 @@ def check_replica(rep_name, other_name, spelling_rep, spelling_other, r, n, tail
 
 def _c03_replica_A_replicated_other_symbolic(s: str) -> bool:
     """
-    pre: 1 <= len(s) <= 2 and 33 <= ord(s[0]) <= 126 and 33 <= ord(s[-1]) <= 126 and ':' not in s and '/' not in s and '.' not in s and '%' not in s and ' ' not in s and ',' not in s and '=' not in s and s[-1] not in '0123456789' and s != 'A'
+    pre: 1 <= len(s) <= 2 and _tok(s[0]) and _tok(s[-1]) and ':' not in s and '/' not in s and '.' not in s and '%' not in s and ' ' not in s and ',' not in s and '=' not in s and s[-1] not in '0123456789' and s != 'A'
     post: _
     """
     if not isinstance(s, str) or type(s) is str:
@@ -60,7 +68,7 @@ def _c03_replica_A_replicated_other_symbolic_pre(s):
 
 def _c03_replica_symbolic_replicated_other_AB(s: str) -> bool:
     """
-    pre: 1 <= len(s) <= 2 and 33 <= ord(s[0]) <= 126 and 33 <= ord(s[-1]) <= 126 and ':' not in s and '/' not in s and '.' not in s and '%' not in s and ' ' not in s and ',' not in s and '=' not in s and s[-1] not in '0123456789' and s != 'AB'
+    pre: 1 <= len(s) <= 2 and _tok(s[0]) and _tok(s[-1]) and ':' not in s and '/' not in s and '.' not in s and '%' not in s and ' ' not in s and ',' not in s and '=' not in s and s[-1] not in '0123456789' and s != 'AB'
     post: _
     """
     if type(s) is str:
@@ -101,7 +109,7 @@ def check_two_replicated(first, second, r, n):
 
 def _c03_replica_two_replicated_producers(s: str) -> bool:
     """
-    pre: 1 <= len(s) <= 2 and 33 <= ord(s[0]) <= 126 and 33 <= ord(s[-1]) <= 126 and ':' not in s and '/' not in s and '.' not in s and '%' not in s and ' ' not in s and ',' not in s and '=' not in s and s[-1] not in '0123456789' and s != 'A'
+    pre: 1 <= len(s) <= 2 and _tok(s[0]) and _tok(s[-1]) and ':' not in s and '/' not in s and '.' not in s and '%' not in s and ' ' not in s and ',' not in s and '=' not in s and s[-1] not in '0123456789' and s != 'A'
     post: _
     """
     if type(s) is str:
@@ -131,7 +139,7 @@ def _n03_aggregate_symbolic_replicated(s: str) -> bool:
     (native sweep only -- not a CrossHair condition: one path of compile_component_aggregate over a symbolic REPLICATED name
     takes more than 90 s and ~900 solver choices, so its reachability twin was never refuted; the symbolic OTHER name is
     covered by _c03_aggregate_A_replicated_other_symbolic.)
-    pre: 1 <= len(s) <= 2 and 33 <= ord(s[0]) <= 126 and 33 <= ord(s[-1]) <= 126 and ':' not in s and '/' not in s and '.' not in s and '%' not in s and ' ' not in s and ',' not in s and '=' not in s and s[-1] not in '0123456789' and s != 'AB'
+    pre: 1 <= len(s) <= 2 and _tok(s[0]) and _tok(s[-1]) and ':' not in s and '/' not in s and '.' not in s and '%' not in s and ' ' not in s and ',' not in s and '=' not in s and s[-1] not in '0123456789' and s != 'AB'
     post: _
     """
     if type(s) is str:
@@ -145,7 +153,7 @@ _n03_aggregate_symbolic_replicated_pre = _c03_replica_symbolic_replicated_other_
 
 def _c03_aggregate_A_replicated_other_symbolic(s: str) -> bool:
     """
-    pre: 1 <= len(s) <= 2 and 33 <= ord(s[0]) <= 126 and 33 <= ord(s[-1]) <= 126 and ':' not in s and '/' not in s and '.' not in s and '%' not in s and ' ' not in s and ',' not in s and '=' not in s and s[-1] not in '0123456789' and s != 'A'
+    pre: 1 <= len(s) <= 2 and _tok(s[0]) and _tok(s[-1]) and ':' not in s and '/' not in s and '.' not in s and '%' not in s and ' ' not in s and ',' not in s and '=' not in s and s[-1] not in '0123456789' and s != 'A'
     post: _
     """
     if type(s) is str:
